@@ -2,10 +2,10 @@ package main
 
 import (
 	"fmt"
-	"strings"
 	"go/token"
 	"go/types"
 	"sort"
+	"strings"
 
 	"golang.org/x/tools/go/ssa"
 )
@@ -1417,7 +1417,7 @@ func checkCandidatePositionsUsed(p *Program, r *Report, rule string, a *verifyAn
 				for _, b := range fn.Blocks {
 					hasT, hasP := false, false
 					for _, g := range guardsAt(b) {
-						if g.Truth && g.Cond == ssa.Value(t) {
+						if g.Cond == ssa.Value(t) && g.Truth == (t.Op == token.EQL) {
 							hasT = true
 						}
 						if rel, ok := relOf(g); ok && rel.Op == token.EQL && !isHashType(rel.X.Type()) && (fromPositions(rel.X) || fromPositions(rel.Y)) {
@@ -1817,7 +1817,6 @@ func checkIndexNotCounterGated(p *Program, r *Report, rule string) {
 	}
 	r.Floor(rule, "leaf-index updates inside loops of the map forest", n, 4)
 }
-
 
 // ---------------------------------------------------------------------------
 // RECORD-APPLIES-DELETIONS (R15f): recording a block keeps, next to the block's
